@@ -90,6 +90,7 @@ def run(ctx):
     capi_cmp = capi_bad = late_cases = 0
     docs_by_set = {}
     mrdocs = 0
+    placement = {"inside": 0, "equal": 0, "front": 0, "behind": 0}
     names_total = arr_bad = arr_bad_cases = 0
     arr_bad_ids = []
     for line in out.split("\n"):
@@ -151,6 +152,8 @@ def run(ctx):
                               {"case": cid, "spec": specs.get(cid, ""), "result": kv},
                               fingerprint={"queryset": qid, "clause": "capi"})
         mrdocs += int(kv.get("mrdocs", 0))
+        for cls, key in (("inside", "plin"), ("equal", "pleq"), ("front", "plfront"), ("behind", "plbehind")):
+            placement[cls] += int(kv.get(key, 0))
         docs_by_set[qid] = docs_by_set.get(qid, 0) + int(kv.get("withdocs", 0))
     matching = [VARIANTS[i] for i in range(NV) if var_ok[i]]
     if corr_cases and not matching:
@@ -189,6 +192,7 @@ def run(ctx):
                   "what": "ts_tagger_new/add_language/tag + ts_tags_buffer_* read through the C struct layout of tags.h vs the Rust iterator"},
         "tags_with_docs_by_query_set": docs_by_set,
         "doc_captures_spanning_several_rows": mrdocs,
+        "tags_by_placement_of_name_vs_tagged_node": placement,
         "explorer_summary": summary,
         "model_variants_matching_all_cases": matching,
         "correspondence": {"compared": corr_cases, "equal": corr_cases - (0 if matching else corr_bad_asis)},
@@ -198,6 +202,11 @@ def run(ctx):
                                    "other": judge_bad - ign_cases},
         "model_vs_impl_disagreements": 0 if matching else corr_bad_asis,
     })
+    if evals and not ctx.replay:
+        # the input space must keep every placement of the @name node relative to the tagged node
+        need = 100
+        ctx.oblige("inputs:every-name-placement>=%d-real-tags" % need, all(v >= need for v in placement.values()),
+                   "real tags per placement class: %s" % placement)
     if evals == 0:
         ctx.oblige("run:driver-produced-results", False, out[-500:])
     elif not ctx.replay and len(distinct) * 4 < evals:
